@@ -965,11 +965,13 @@ def main():
                  "  match file with [] => Ok st | line :: rest => (do st' <- gen_step_g st line_number line; gen_loop st' (line_number + 1) rest) end.")
     parts.append("Definition gen__parse_file (file : list text) : res gmap :=\n  (do st <- gen_loop gen_st0 gen_first_line file; Ok (gen_result st)).")
     f = pfns["parse_file"]
-    pinned = ("try:\n    with open(filepath, mode='r', encoding='utf-8') as file:\n        return _parse_file(file)\n"
+    pinned = ("try:\n    file = open(filepath, mode='r', encoding='utf-8')\nexcept (OSError, ValueError) as e:\n"
+              "    raise DatabaseError(\"Can't open database file for parsing\") from e\n"
+              "try:\n    with file:\n        return _parse_file(file)\n"
               "except (OSError, UnicodeDecodeError) as e:\n    raise DatabaseError(\"Can't read database file for parsing\") from e")
     if [a.arg for a in f.args.args] != ["filepath"] or f.args.defaults or f.args.kwonlyargs or f.args.vararg or f.args.kwarg or f.decorator_list \
             or ast.unparse(ast.Module(body=strip_doc(f.body), type_ignores=[])) != pinned:
-        fail(f, "parse_file: `with open(filepath, mode='r', encoding='utf-8') as file: return _parse_file(file)` inside try/except (OSError, UnicodeDecodeError) expected")
+        fail(f, "parse_file: `file = open(filepath, mode='r', encoding='utf-8')` guarded by except (OSError, ValueError), then `with file: return _parse_file(file)` inside try/except (OSError, UnicodeDecodeError) expected")
     need_import(ps, "DatabaseError", "pyp0f.exceptions", "parser.py")
     parts.append("(* parse_file(filepath): ASSUMED I/O -- open() succeeds and iterating the file yields the lines `file`; OSError /\n"
                  "   UnicodeDecodeError (-> DatabaseError) are not modelled *)\n"
